@@ -259,3 +259,56 @@ HARNESSES = [
              'carbon.protocols:MetricPickleReceiver.stringReceived'],
     assumptions=['unpickler stubbed to return the decoded entry list (C codec)']),
 ]
+
+
+# ---- engine S: the resolution floor for EVERY resolution (the CrossHair harness uses a table of six) ------------------
+def _floor_lemmas(tier):
+  import ast
+  import inspect
+  import textwrap
+  import z3
+  from vp_lib import pysym
+  out = []
+  src = ast.parse(textwrap.dedent(inspect.getsource(protocols.MetricReceiver.metricReceived)))
+  floor_expr = None
+  for node in ast.walk(src):
+    if isinstance(node, ast.Assign) and isinstance(node.value, ast.Tuple) and any(isinstance(x, ast.FloorDiv) for x in ast.walk(node.value)):
+      floor_expr = node.value
+  if floor_expr is None:
+    return [dict(name='C12 floor translation', verdict='unknown', detail='no `(int(ts) // res * res, value)` assignment found in metricReceived', queries=0)]
+  ts, res, val = z3.Ints('ts res val')
+  it = pysym.Interp(pysym.Clock(z3.RealVal(0)))
+  fr = {'env': {'datapoint': (ts, val), 'res': res}, 'active': z3.BoolVal(True), 'returned': z3.BoolVal(False), 'ret': None}
+  try:
+    new_ts, new_val = it.eval(floor_expr, fr)
+  except pysym.Unsupported as e:
+    return [dict(name='C12 floor translation', verdict='unknown', detail=repr(e), queries=0)]
+
+  def lemma(name, asm, goal):
+    v, m, dt = pysym.check(z3.Solver, asm, goal, 60000)
+    rec = dict(name=name, verdict=v, model=m, solver_time_s=round(dt, 4), queries=1, detail='')
+    if v == 'proved':
+      ok, w = pysym.satisfiable(asm)
+      rec['witness'] = w
+      if not ok:
+        rec['verdict'] = 'error'
+    out.append(rec)
+  lemma('R1 every integer timestamp >= 0 and every resolution >= 1: result <= ts < result + res and res | result',
+        [ts >= 0, res >= 1], z3.And(new_ts <= ts, ts < new_ts + res, new_ts % res == 0))
+  lemma('R2 the value is passed through untouched', [res >= 1], new_val == val)
+  lemma('R3 a timestamp that is already a multiple of the resolution is unchanged', [ts >= 0, res >= 1, ts % res == 0], new_ts == ts)
+  return out
+
+
+def _floor_replay(info):
+  m = info['model'] or {}
+  ts, res = int(str(m.get('ts', 0))), int(str(m.get('res', 1)))
+  got = int(ts) // res * res
+  return not (got <= ts < got + res and got % res == 0)
+
+
+from vp_lib.api import S  # noqa: E402
+HARNESSES.append(
+  S('C12_floor', _floor_lemmas, replay=_floor_replay,
+    encodes=['carbon.protocols:MetricReceiver.metricReceived (the `int(ts) // res * res` expression, translated from the current source)'],
+    assumptions=['integer timestamps (int() of a float truncates first; fractional timestamps are covered by the table in C12_admit)']))
